@@ -40,6 +40,14 @@ CHECKS = {
    technique="stateless deviation-bounded DFS over answer orders, late answers and caller cancellation of the real GetSCTs group races with a gated Submitter under virtual time, over every forced session order and per-log outcome; plus a free-running race-detector pass",
    text="Scenario = policy (Chrome with 2+2 and 1+2 logs, Apple with 3) x base minimum 2/3 (via the real LogsByGroup on certificates of two lifetimes) x every session order of every group forced through the public weight API x every per-log outcome in {SCT, error, hang}; per scenario every choice vector within the deviation bound (quick 1, thorough 2) over which pending submission is answered next, logs answering late and caller cancellation. Oracle from the recorded submissions: success => returned SCTs from distinct logs that issued them, no log asked twice, every policy group satisfied (independent reference); enough willing logs and no cancel => success; always terminates; prompt return after cancel. The race pass runs concurrent AddChain x RefreshRoots, GetSCTs x SetLogWeight(s), and Proxy submissions x log-list refreshes under the race detector.",
    note="Session combinations in which two group races try the same log at the same virtual instant are excluded (the winner is decided between two gate-free steps, which this engine does not enumerate). The race pass is schedule-insensitive for the accesses it executes but not exhaustive. Distributor-level log filtering is covered by C18's Compatible checks and the distributor part of this check."),
+ "C05": dict(level="exploration", engine="enum", design="5/C05",
+   technique="bounded-exhaustive differential verification (all keys x all 65536 algorithm-code pairs x every single-bit/field mutation of signed objects and signature values) against a reference built from std crypto primitives and hand-written RFC encoders",
+   text="Eleven stored keys (RSA 1024/2048/3072, P-224/256/384/521, DSA-1024/160, Ed25519) through seven exhaustive phases: verifier construction x opt-in, all 256x256 (hash, signature) codes x honest signatures under the six hashes, every single-bit and single-field mutation of SCT(x509/precert)/STH objects in both directions, DER signature-value malformations (trailing bytes in/outside, zero/negative/non-minimal r,s, wrong tags, truncation, huge lengths, every bit flip), every signer x verifier pair, the signed log list, and the ctutil / LogInfo paths over real certificates. Library accepts <=> reference accepts; mismatch => error, never nil, never panic; construction policy as stated.",
+   note="Trusted base: Go crypto and math/big. 16-byte payloads and one mutation (thorough: two). Embedded SCTs are covered by C03."),
+ "C19": dict(level="model_checking", engine="bfs", design="5/C19",
+   technique="explicit-state BFS over the real witness (fresh sqlite database per state, states reached by replay of the shortest operation path), every transition compared with a reference witness",
+   text="State = stored raw STH per log, read back from the witness database. From every reachable state every operation of the alphabet - Update x {2 configured logs, 1 unknown id} x candidate STHs from an honest and a forked Merkle tree family (sizes 0..5 (thorough 6), other timestamp, right/wrong embedded id, flipped signature, other log's key, unknown key, non-JSON) x 9 proof kinds (correct, empty, for other sizes, other family, truncated, padded, random, duplicated hash), GetSTH, GetLogs - is run on the real code both directly and through the HTTP server and compared with a reference (a map + RFC 6962 consistency verification): applied <=> valid signature for that log and (nothing held or genuine verified extension); refused updates leave every row unchanged and stale/inconsistent ones are answered with the held STH; every cosignature verifies under the witness key over the STH it accompanies.",
+   note="The witness keeps no state outside its database table (asserted by reading the code), so rows are restored between the transitions of one expansion. Concurrent updates are serialised by the single-connection pool of the production setting; interleavings of concurrent updates are not yet explored."),
 }
 PENDING_REASON = "check not built yet in this round (design in DESIGN.md section 5); not claimed until its machinery exists and passes on the unchanged tree"
 checks, na = [], []
